@@ -140,7 +140,7 @@ theorem top_sim (all : List String) (tef : C.TyEnv) (glf : List (String × Ty ×
               rw [hxf] at hy; cases hy
               change Store.get (stp.store.set y v) y = _ at hpv
               rw [get_set_eq] at hpv; cases hpv
-              refine ⟨?_, fun ht => bool_val tef [] [] (Rel_nil _ _) e v hwf (by rw [htyf]; exact ht) hv0⟩
+              refine ⟨?_, htyf ▸ typed_val tef [] [] (Rel_nil _ _) e v hwf hv0⟩
               rw [hP y hl, hs0, hcvv]
               show some (C.conv _ (C.conv _ v)) = _
               rw [conv_idem]
